@@ -417,6 +417,10 @@ def build(ctx, name, srcs, lib=("inplace_stop_token.cpp", "async_stack.cpp", "ex
     exe = os.path.join(bdir, name)
     if os.path.exists(exe):
         return exe
+    final_exe = exe
+    bdir = bdir + ".tmp%d" % os.getpid()      # private build directory: concurrent checks may build the same key
+    exe = os.path.join(bdir, name)
+    shutil.rmtree(bdir, ignore_errors=True)
     os.makedirs(bdir, exist_ok=True)
     cc = [shutil.which("ccache")] if shutil.which("ccache") else []
     objs, procs = [], []
@@ -441,14 +445,11 @@ def build(ctx, name, srcs, lib=("inplace_stop_token.cpp", "async_stack.cpp", "ex
     if p.returncode != 0:
         shutil.rmtree(bdir, ignore_errors=True)
         raise Broken("harness link failed (%s):\n%s" % (name, p.stdout[-4000:]))
-    os.rename(exe + ".tmp", exe)
-    for o in objs:
-        try:
-            os.remove(o)
-        except OSError:
-            pass
+    os.makedirs(os.path.dirname(final_exe), exist_ok=True)
+    os.rename(exe + ".tmp", final_exe)
+    shutil.rmtree(bdir, ignore_errors=True)
     log("built %s in %.1fs" % (name, time.time() - t0))
-    return exe
+    return final_exe
 
 
 def build_many(ctx, jobs):
@@ -582,6 +583,28 @@ def run_batches(ctx, exe, args, total, log_path, timeout=900, per_exec_timeout=N
         if x is None or x < k:
             x = k
         d["x"] = x
+        if d.get("event") == "Hang" and x not in seen_units:
+            # a wall-clock verdict: believed only if the unit alone (scratch log) hangs again; a loaded machine or a slow
+            # symboliser must never become an alarm
+            tmp_log = log_path + ".confirm"
+            open(tmp_log, "w").close()
+            rc2, so2, se2 = run_exe(exe, list(args) + ["--from", x, "--to", x + 1, "--log", tmp_log], timeout=max(300, timeout // 2), env=env)
+            d2 = classify_death(rc2, se2)
+            try:
+                os.remove(tmp_log)
+            except OSError:
+                pass
+            if d2 is None or (d2.get("event") == "Exit" and rc2 == 1):
+                ctx.rep.note("unit %d: wall-clock time-out not reproduced when re-run alone (machine load); unit skipped" % x)
+                with open(log_path, "a") as f:
+                    f.write('\n{"e":"Aborted","x":%d}\n' % x)
+                k = x + 1
+                continue
+            if d2.get("event") != "Hang":
+                d2["x"] = x
+                d = d2
+            else:
+                d["confirmed"] = True
         if x in seen_units:
             # the process went on after a recoverable sanitizer report in this very unit and died later in it:
             # the unit is already tainted and judged by that first report
